@@ -21,6 +21,11 @@ class Ctx:
         self.run.analysed.update(self.repo.stats())
         self.run.analysed['repo_root'] = self.repo.root
 
+    def N(self, fi, depth=2):
+        """Normalised view of a function: module-local helpers inlined (see sa/normalize.py)."""
+        from .normalize import normalized
+        return normalized(self, fi, depth)
+
 
 def run_check(prop, tier, seed, audit=True):
     try:
